@@ -451,7 +451,12 @@ impl<'a> Lexer<'a> {
     }
 
     fn maybe_followed_by_apostrophe_suffix(&mut self, result: LexResult<'a>) -> LexResult<'a> {
-        if let Some(suffix) = self.scan_apostrophe_suffix(result.end) {
+        if let Some(mut suffix) = self.scan_apostrophe_suffix(result.end) {
+            // the suffix sits on the line the preceding (possibly multi-line) token ends on
+            let line = self.line + result.newlines;
+            let line_start = result.new_line_start.unwrap_or(self.line_start);
+            suffix.token.range = Self::make_loc_from(line, line_start, result.end)
+                .to(Self::make_loc_from(line, line_start, suffix.end));
             let result = result.extended_to(&suffix);
             self.staged = Some(suffix.token);
             result
